@@ -236,6 +236,17 @@ func (m *CPU) Run(app risc.Application) (int, error) {
 		}
 	}
 
+	// What the execute units completed after the return is older than the
+	// return: it still has to be written
+	m.writeBus.Connect(cycle + 1)
+	for !m.areWriteUnitsEmpty() || !m.writeBus.IsEmpty() {
+		for _, wu := range m.writeUnits {
+			_ = wu.Cycle(wuReq{-1})
+		}
+		cycle++
+		m.writeBus.Connect(cycle + 1)
+	}
+
 	for _, cc := range m.cacheControllers {
 		cycle += cc.export()
 	}
